@@ -62,6 +62,10 @@ type Strategy struct {
 	Accuse  int            `json:"accuse"`            // -1 none, else the honest keyper accused falsely
 	Apology map[int]int    `json:"apology,omitempty"` // honest keyper -> Apology*
 	Late    [NumClass]bool `json:"late"`              // false: last block of the phase; true: first block of the next phase
+	// EvalsFirst: the evaluations are sent before the commitment (matters when both
+	// land in the same block: honest keypers then see the evaluation of a dealer whose
+	// commitment they do not know yet)
+	EvalsFirst bool `json:"evals_first,omitempty"`
 }
 
 // HonestStrategy is fully honest behaviour.
@@ -92,6 +96,9 @@ func (s Strategy) String() string {
 		if s.Apology[k] != ApologyHonest {
 			p = append(p, fmt.Sprintf("apology->%d=%s", k, [...]string{"honest", "wrong", "opposite"}[s.Apology[k]]))
 		}
+	}
+	if s.EvalsFirst {
+		p = append(p, "evaluations before the commitment")
 	}
 	for c, l := range s.Late {
 		if l {
@@ -399,7 +406,7 @@ func (w *World) byzAct(b int, open int64) {
 			return open == h
 		}
 		sec := w.byzSecrets(b, eon)
-		if at(ClassCommit, 0) {
+		sendCommit := func() {
 			g := *sec.poly.Gammas()
 			switch st.Commit {
 			case CommitCorrect:
@@ -416,6 +423,9 @@ func (w *World) byzAct(b int, open int64) {
 				g2 := (*sec.poly2.Gammas())[:len(g)]
 				w.send(b, shmsg.NewPolyCommitment(eon, &g2))
 			}
+		}
+		if at(ClassCommit, 0) && !st.EvalsFirst {
+			sendCommit()
 		}
 		if at(ClassEval, 0) {
 			var recv []common.Address
@@ -440,6 +450,9 @@ func (w *World) byzAct(b int, open int64) {
 			if len(recv) > 0 {
 				w.send(b, shmsg.NewPolyEval(eon, recv, enc))
 			}
+		}
+		if at(ClassCommit, 0) && st.EvalsFirst {
+			sendCommit()
 		}
 		if at(ClassAccuse, 1) && st.Accuse >= 0 {
 			w.send(b, shmsg.NewAccusation(eon, []common.Address{Addr(st.Accuse)}))
